@@ -18,6 +18,7 @@ Fixpoint crn_loop (name_len : nat) (cs cur out : bytes) : res (bytes * bytes) :=
       else crn_loop name_len cs' [] (out ++ [N.of_nat (length cur)] ++ cur)
     else if 63 - 1 <=? length cur then Err InvalidName      (* "Label too long" *)
     else if (128 <? c)%N then Err InvalidName               (* "Non-ASCII character in a label" *)
+    else if ((c <? 32) || (c =? 127) || (c =? 92))%N then Err InvalidName   (* "Invalid character in a label": is_ascii_control or backslash *)
     else crn_loop name_len cs' (cur ++ [c]) out
   end.
 
